@@ -1217,4 +1217,82 @@ theorem iso_roundtrip (t : Int) (h : t.natAbs ≤ 8640000000000000) :
       simp only [eu, ne_eq, reduceCtorEq, not_true_eq_false, not_false_eq_true, and_false, and_true, false_and, if_false, if_true, Int.neg_neg, Nat.reduceEqDiff]
       rw [parseFields_ok t h _ _ (by omega) (isLeap_cycle _)]
 
+-- ---------------------------------------------------------------- the host zone: fixed offsets
+
+
+theorem wall_fixed (o t : Int) : Zone.wall (.fixed o) (stateTime t) = stateTime (t + o * 1000) := by
+  unfold Zone.wall Zone.offsetAt Zone.lookup stateTime
+  simp only []
+  congr 1 <;> omega
+
+theorem dateToUnix_fixed (o u : Int) : Zone.dateToUnix (.fixed o) u = u - o := by
+  unfold Zone.dateToUnix Zone.offsetAt Zone.lookup
+  simp only []
+  by_cases h : o = 0
+  · subst h; simp
+  · simp only [ne_eq, h, not_false_eq_true, if_true]
+    split <;> rfl
+
+theorem localTime_fixed (o t : Int) : Spec.LocalTime (.fixed o) t = t + o * 1000 := by
+  simp [Spec.LocalTime, Spec.LocalTZA, Spec.DaylightSavingTA]
+theorem utc_fixed (o x : Int) : Spec.UTC (.fixed o) x = x - o * 1000 := by
+  simp [Spec.UTC, Spec.LocalTZA, Spec.DaylightSavingTA]
+
+/-- the local getters (and getYear, getTimezoneOffset) under a fixed-offset zone are the §15.9.1 functions of
+    LocalTime(t) = t + LocalTZA, for every integer t and every whole-minute offset -/
+theorem local_getters_fixed (o t : Int) (ho : o % 60 = 0) :
+    observeLocal (.fixed o) (validState t) = Spec.observeLocal (.fixed o) (some t) := by
+  have hw := wall_fixed o t
+  have hd := goAbsDate_eq _ _ (sameDay_state (t + o * 1000))
+  have hoff : Zone.offsetAt (.fixed o) (stateTime t).sec = o := rfl
+  have hq : goDiv (-o) 60 = (t - (t + o * 1000)) / 60000 := by
+    unfold goDiv; split <;> omega
+  simp only [observeLocal, Spec.observeLocal, validState, Bool.false_eq_true, if_false, hw, localTime_fixed]
+  simp [goYear, goMonth, goDay, hd, goWeekday_state, goHour_state, goMinute_state, goSecond_state, goMilli_state, hoff, hq]
+
+theorem unixMilli_shift (s n o : Int) : goUnixMilli ⟨s - o, n⟩ = goUnixMilli ⟨s, n⟩ - o * 1000 := by
+  unfold goUnixMilli; simp only []; omega
+
+/-- the body of a local setter under a fixed-offset zone: split LocalTime(t) into fields, recompose, convert back with
+    UTC(·) — for every integer t, offset and integer arguments (before the too-large guard and TimeClip) -/
+theorem local_setter_core_fixed (o : Int) (k : Setter) (t : Int) (vs : List Int) (hk : k ≠ .time)
+    (h1 : 1 ≤ vs.length) (h2 : vs.length ≤ k.limit) :
+    let w := (applySetter k (newEcmaTime (Zone.wall (.fixed o) (stateTime t))) vs).goTimeCore
+    some (goUnixMilli ⟨Zone.dateToUnix (.fixed o) w.sec, w.nsec⟩) =
+      (Spec.setUTCRaw (toSpec k) (some (Spec.LocalTime (.fixed o) t)) (vs.map fvInt)).map (Spec.UTC (.fixed o)) := by
+  intro w
+  have hc := setter_core k (t + o * 1000) vs hk h1 h2
+  rw [localTime_fixed, ← hc]
+  simp only [Option.map_some, utc_fixed, dateToUnix_fixed, unixMilli_shift]
+  simp only [w, wall_fixed, setCoreU]
+
+/-- the multi-argument constructor under a fixed-offset zone: UTC(MakeDate(MakeDay, MakeTime)) on ℤ^7 -/
+theorem local_ctor_core_fixed (o y m d h mi s ms : Int) :
+    let w := goDateMs y (m + 1) d h mi s ms
+    goUnixMilli ⟨Zone.dateToUnix (.fixed o) w.sec, w.nsec⟩ =
+      Spec.UTC (.fixed o) (Spec.MakeDate (Spec.MakeDay y m d) (Spec.MakeTime h mi s ms)) := by
+  intro w
+  rw [dateToUnix_fixed, unixMilli_shift, utc_fixed]
+  have := make_compose_ms y m d h mi s ms
+  simp only [w] at *
+  rw [← this]
+
+theorem wall_zero (t : GoTime) : Zone.wall (.fixed 0) t = t := by
+  cases t; simp [Zone.wall, Zone.offsetAt, Zone.lookup]
+
+theorem goTimeIn_zero (e : EcmaTime) : e.goTimeIn (.fixed 0) = e.goTime := by
+  unfold EcmaTime.goTimeIn EcmaTime.goTime
+  split
+  · rfl
+  · simp [dateToUnix_fixed]
+
+/-- with time.Local = UTC the local setters ARE the UTC setters of the model (setYear aside, which has no UTC twin) -/
+theorem local_zero_is_utc (k : LSetter) (hk : k ≠ .year2) (d : DateObj) (args : List FV) :
+    setLocal (.fixed 0) k d args = setUTC k.base d args := by
+  have hz : newDate (ofInt (Zone.dateToUnix (.fixed 0) 0 * 1000)) = newDate zero := by decide +kernel
+  cases k <;> first | exact absurd rfl hk | (
+    simp only [setLocal, setUTC, LSetter.base, LSetter.limit, wall_zero, goTimeIn_zero, hz, setCore, ne_eq, reduceCtorEq,
+      not_false_eq_true, and_true, not_true_eq_false, and_false]
+    try rfl)
+
 end OttoVerif.C12.Lem
